@@ -1995,3 +1995,75 @@ def self_view_rule(ck, rule_id, class_names, what):
               "%d member(s), %d non-owning, none set to point into the object itself" % (len(c["fields"]), len(views)) if not bad else
               "%s is set to refer into %s of the same object (line %s) and %s is copied member-wise: the copy's %s views the original's storage"
               % (bad[0][1].rsplit("::", 1)[1], bad[0][2].rsplit("::", 1)[1], bad[0][0].get("l"), short, bad[0][1].rsplit("::", 1)[1]))
+
+
+# ---------- a value cached inside an object follows the value it was computed from ----------
+
+def cache_coherence_rule(ck, rule_id, class_name, what):
+    """Members that const member functions write are caches (`mutable`).  The members such a function reads are what the cache was
+    computed from; every non-const member function that writes one of those must also write a member of the cache group
+    (invalidate / recompute) -- directly or through a member function it calls on this.  No const writer => nothing to decide."""
+    prog = ck.prog
+    ck.rule(rule_id, "E mod-set agreement (derived members follow their sources)",
+            "%s: a member filled in by a const accessor (a lazily computed cache) is invalidated or recomputed by every member function "
+            "that changes a member it was computed from -- otherwise the accessors go on answering with what an earlier value decoded to" % what, 1)
+    cls = strip_tmpl(class_name)
+    meths = [f for f in prog.funcs.values() if f.blocks and strip_tmpl(f.cls or "") == cls and not f.is_lambda]
+    ck.require(meths, "%s: no member functions of %s analysed" % (rule_id, class_name))
+    own = lambda q: strip_tmpl(q or "").startswith(cls + "::")
+
+    def writes(fn_, depth=0, seen=None):
+        seen = seen or set()
+        if fn_.id in seen or depth > 3:
+            return set()
+        seen.add(fn_.id)
+        w = set()
+        for e in fn_.events(("assign", "call", "incdec")):
+            if e["k"] == "assign" and own(e["lhs"].get("f")):
+                w.add(strip_tmpl(e["lhs"]["f"]))
+            elif e["k"] == "incdec" and own((e.get("operand") or {}).get("f")):
+                w.add(strip_tmpl(e["operand"]["f"]))
+            elif e["k"] == "call":
+                rv = e.get("recv") or {}
+                if own(rv.get("f")) and (e.get("op") == "=" or is_stl_mutation(e)):
+                    w.add(strip_tmpl(rv["f"]))
+                elif (rv.get("t") or "this") in ("this", "(*this)") or rv.get("t") is None:
+                    for g_ in prog.resolve_call(e):
+                        if g_.blocks and strip_tmpl(g_.cls or "") == cls:
+                            w |= writes(g_, depth + 1, seen)
+        return w
+
+    def reads(fn_):
+        r = set()
+        for e in fn_.events():
+            for x in (e.get("refs") or []):
+                if x.startswith("f:") and own(x[2:]):
+                    r.add(strip_tmpl(x[2:]))
+        for b in fn_.blocks.values():
+            for x in ((b.term or {}).get("refs") or []):
+                if x.startswith("f:") and own(x[2:]):
+                    r.add(strip_tmpl(x[2:]))
+        return r
+    is_const = lambda fn_: fn_.id.rstrip().endswith(" const") or (fn_.d.get("sig") or "").rstrip().endswith(" const")
+    caches, sources = set(), set()
+    nconst = 0
+    for m in meths:
+        if is_const(m):
+            nconst += 1
+            w = writes(m)
+            if w:
+                caches |= w
+                sources |= reads(m)
+    sources -= caches
+    ck.ob(rule_id, "%s/const-accessors" % cls.rsplit("::", 1)[1], True, "", "", "%d const member function(s) looked at; cached members: %s"
+          % (nconst, sorted(x.rsplit("::", 1)[1] for x in caches) or "none"), nontrivial=False)
+    for m in meths:
+        if is_const(m) or m.d.get("ctor"):
+            continue
+        w = writes(m)
+        if caches and (w & sources):
+            ok = bool(w & caches)
+            ck.ob(rule_id, "%s/%s-keeps-cache-current" % (cls.rsplit("::", 1)[1], m.base.rsplit("::", 1)[1]), ok, m.loc, m,
+                  "writes %s and the cache (%s)" % (sorted(x.rsplit("::", 1)[1] for x in w & sources), sorted(x.rsplit("::", 1)[1] for x in w & caches)) if ok else
+                  "%s changes %s, from which the const accessors fill the cached %s, and leaves the cache as it is: they keep answering for the old value"
+                  % (m.name, sorted(x.rsplit("::", 1)[1] for x in w & sources), sorted(x.rsplit("::", 1)[1] for x in caches)))
